@@ -250,6 +250,7 @@ func runCase(c *Case) (nontrivial bool, classes []string, err error) {
 	sizes := map[int]int{0: c.Size0}
 	for i, r := range c.Reloads {
 		sizes[i+1] = r.SizeKB
+		sizes[1000+i+1] = r.SizeKB // the intermediate generation of a pair of signals
 	}
 	httpserver.GracefulTimeout = 5 * time.Second
 	if c.GraceMs > 0 {
@@ -267,7 +268,17 @@ func runCase(c *Case) (nontrivial bool, classes []string, err error) {
 	if serr != nil {
 		return false, nil, fmt.Errorf("HARNESS: initial start: %v", serr)
 	}
-	defer func() { srv.Stop(inst) }()
+	defer func() {
+		// a history that went wrong can leave casket in a state in which stopping panics;
+		// that must not mask the verdict reached before
+		defer func() {
+			if r := recover(); r != nil && err == nil {
+				err = fmt.Errorf("stopping the instance after the history panicked: %v", r)
+				nontrivial = true
+			}
+		}()
+		srv.Stop(inst)
+	}()
 
 	// sequential probe of every site of the configuration that should be live
 	probeAll := func(gen int, extra bool, when string) error {
@@ -326,8 +337,51 @@ func runCase(c *Case) (nontrivial bool, classes []string, err error) {
 		rr.call = time.Now()
 		var ni *casket.Instance
 		var rerr error
-		if r.Via == "sigusr1" {
-			os.WriteFile(conf, []byte(t), 0o644)
+		if r.Via == "sigusr1-pair" && r.Kind == "valid" {
+			// two configurations requested back to back, without waiting for the first reload:
+			// in the end the last one requested must be live
+			mid := 1000 + gen
+			tmid := text(c, dir, mid, "valid", r.Extra, r.SizeKB)
+			off := len(srv.LogBuf.String())
+			midRec := reloadRec{gen: mid, kind: "valid", extra: r.Extra, prevValidGen: curGen, via: r.Via, ok: true, call: time.Now()}
+			writeAtomically(conf, tmid)
+			syscall.Kill(os.Getpid(), syscall.SIGUSR1)
+			rr.call = time.Now()
+			writeAtomically(conf, t)
+			syscall.Kill(os.Getpid(), syscall.SIGUSR1)
+			ni, rerr = inst, fmt.Errorf("HARNESS: the SIGUSR1 reloads neither completed nor failed within 20 s")
+			var firstDone time.Time
+			for d := time.Now().Add(20 * time.Second); time.Now().Before(d); time.Sleep(500 * time.Microsecond) {
+				l := srv.LogBuf.String()
+				if len(l) < off {
+					off = 0
+				}
+				l = l[off:]
+				started := strings.Count(l, "[INFO] SIGUSR1: Reloading")
+				done := strings.Count(l, "Reloading complete") + strings.Count(l, "[ERROR] SIGUSR1")
+				if done >= 1 && firstDone.IsZero() {
+					firstDone = time.Now()
+				}
+				// the second signal is dropped by the runtime if the first was still queued: then one reload (of the last file) is all there is
+				if done >= 2 || (done >= 1 && started == done && time.Since(firstDone) > 300*time.Millisecond) {
+					rerr = nil
+					if i := strings.Index(l, "[ERROR] SIGUSR1"); i >= 0 {
+						rerr = fmt.Errorf("%s", strings.SplitN(l[i:], "\n", 2)[0])
+					}
+					if is := casket.Instances(); len(is) > 0 {
+						ni = is[len(is)-1]
+					}
+					break
+				}
+			}
+			if rerr != nil && strings.HasPrefix(rerr.Error(), "HARNESS") {
+				stepErr = rerr
+				break
+			}
+			midRec.ret = time.Now()
+			rls = append(rls, midRec)
+		} else if r.Via == "sigusr1" || r.Via == "sigusr1-pair" {
+			writeAtomically(conf, t)
 			off := len(srv.LogBuf.String())
 			rr.call = time.Now()
 			syscall.Kill(os.Getpid(), syscall.SIGUSR1)
@@ -409,12 +463,17 @@ func runCase(c *Case) (nontrivial bool, classes []string, err error) {
 				bad = append(bad, fmt.Sprintf("%s: %s; reloads: %s", where, r.err, describe(rls, r.start)))
 				continue
 			}
+			// generations are compared by their position in time, not by their number
+			rank := map[int]int{0: 0}
+			for i, rl := range rls {
+				rank[rl.gen] = i + 1
+			}
 			lo, hi := 0, 0
 			for _, rl := range rls {
 				if !rl.ok {
 					continue
 				}
-				if rl.ret.Before(r.start) {
+				if rl.ret.Before(r.start) && rl.gen < 1000 {
 					lo = rl.gen
 				}
 				if rl.call.Before(r.end) {
@@ -436,9 +495,9 @@ func runCase(c *Case) (nontrivial bool, classes []string, err error) {
 			switch {
 			case !valid:
 				bad = append(bad, fmt.Sprintf("%s was answered by generation %d, whose reload failed; reloads: %s", where, r.gen, describe(rls, r.start)))
-			case r.gen < lo:
+			case rank[r.gen] < rank[lo]:
 				bad = append(bad, fmt.Sprintf("%s was answered by the old generation %d although the reload to generation %d had already returned; reloads: %s", where, r.gen, lo, describe(rls, r.start)))
-			case r.gen > hi:
+			case rank[r.gen] > rank[hi]:
 				bad = append(bad, fmt.Sprintf("%s was answered by generation %d before its reload was even requested; reloads: %s", where, r.gen, describe(rls, r.start)))
 			}
 		}
@@ -471,6 +530,15 @@ func runCase(c *Case) (nontrivial bool, classes []string, err error) {
 		return true, classes, fmt.Errorf("%d of %d concurrent requests violated the statement; first: %s", len(bad), total, bad[0])
 	}
 	return overlaps > 0, classes, nil
+}
+
+// writeAtomically replaces the Casketfile in one step, so that a reload that
+// is reading it at that moment sees either the old or the new text, never a
+// truncated one.
+func writeAtomically(path, text string) {
+	tmp := path + ".new"
+	os.WriteFile(tmp, []byte(text), 0o644)
+	os.Rename(tmp, path)
 }
 
 func rls0(rls []reloadRec, def time.Time) time.Time {
@@ -533,7 +601,7 @@ func genCase(t *rapid.T) *Case {
 			DelayMs: rapid.SampledFrom([]int{0, 0, 1, 3, 10}).Draw(t, lb+"delay"),
 			Extra:   rapid.Bool().Draw(t, lb+"extra"),
 			SizeKB:  rapid.SampledFrom([]int{0, 1, 16, 200}).Draw(t, lb+"size"),
-			Via:     rapid.SampledFrom([]string{"", "", "sigusr1"}).Draw(t, lb+"via"),
+			Via:     rapid.SampledFrom([]string{"", "", "sigusr1", "sigusr1", "sigusr1-pair"}).Draw(t, lb+"via"),
 		})
 	}
 	return c
